@@ -1395,10 +1395,11 @@ class PCE500Emulator:
             "cs_right_count": getattr(self.lcd, "cs_right_count", 0),
         }
         payload = bytearray()
-        for chip_snap in chips:
+        for chip_idx, chip_snap in enumerate(chips):
             meta["chips"].append(
                 {
                     "on": chip_snap.on,
+                    "busy": bool(self.lcd.chips[chip_idx].state.busy),
                     "start_line": chip_snap.start_line,
                     "page": chip_snap.page,
                     "y_address": chip_snap.y_address,
